@@ -332,32 +332,47 @@ pub fn adapt_case(r: &mut Rng, server_mode: bool, plan: u8, steps: usize) -> Str
                 // same silent peer to time out)
                 let double = r.chance(1, 3);
                 let (tx2, _rx2) = flume::unbounded();
+                let target2 = Id::random();
                 if double {
-                    s.node.actor.verif_get(crate::c20::request_of(0, Id::random()), ResponseSender::ClosestNodes(tx2));
+                    s.node.actor.verif_get(crate::c20::request_of(0, target2), ResponseSender::ClosestNodes(tx2));
                 }
+                // ... and half of those pairs disagree: the second lookup's responders all report another address
+                let split = double && r.chance(2, 3);
+                // (preferably neither the first lookup's winner nor the address the node holds now: both lookups change it)
+                let held = s.snap().mode.0;
+                let cands = [own, nat[0].addr, nat[1].addr];
+                let winner2: SocketAddrV4 = *cands.iter().find(|a| **a != winner && Some(**a) != held).or_else(|| cands.iter().find(|a| **a != winner)).unwrap();
+                let mut votes2: Vec<SocketAddrV4> = Vec::new();
                 let mut votes: Vec<SocketAddrV4> = Vec::new();
                 let mut quiet_rounds = 0;
                 for round in 0..400 {
                     let mut vs: Vec<SocketAddrV4> = Vec::new();
+                    let mut vs2: Vec<SocketAddrV4> = Vec::new();
                     let incoming = s.step(&mut |s, inc| {
                         let req = match as_request(&inc.msg) {
                             Some(q) => q,
                             None => return Reply::Silent,
                         };
-                        if !matches!(req.request_type, RequestTypeSpecific::FindNode(_)) {
-                            return s.honest(inc);
-                        }
+                        let second = match &req.request_type {
+                            RequestTypeSpecific::FindNode(a) => a.target == target2,
+                            _ => return s.honest(inc),
+                        };
                         if double && inc.peer == n - 1 {
                             return Reply::Silent;
                         }
-                        let v = if inc.peer < minority { loser } else { winner };
-                        vs.push(v);
+                        let v = if split && second { winner2 } else if inc.peer < minority { loser } else { winner };
+                        if split && second {
+                            vs2.push(v);
+                        } else {
+                            vs.push(v);
+                        }
                         match honest_reply(&s.peers[inc.peer], inc, &s.all_nodes()) {
                             Some(mt) => Reply::MsgIp(mt, v),
                             None => Reply::Silent,
                         }
                     });
                     votes.extend(vs);
+                    votes2.extend(vs2);
                     quiet_rounds = if incoming == 0 { quiet_rounds + 1 } else { 0 };
                     if s.snap().iterative_queries == 0 {
                         break;
@@ -376,7 +391,11 @@ pub fn adapt_case(r: &mut Rng, server_mode: bool, plan: u8, steps: usize) -> Str
                 for _ in 0..3 {
                     s.step(&mut |s, inc| s.honest(inc));
                 }
-                ev = format!("AVotes [{}]", votes.iter().map(addr_coq).collect::<Vec<_>>().join("; "));
+                ev = if split {
+                    format!("AVotes2 [{}] [{}]", votes.iter().map(addr_coq).collect::<Vec<_>>().join("; "), votes2.iter().map(addr_coq).collect::<Vec<_>>().join("; "))
+                } else {
+                    format!("AVotes [{}]", votes.iter().map(addr_coq).collect::<Vec<_>>().join("; "))
+                };
             }
             2 => {
                 // a ping request from one of the outside addresses, or from an ordinary peer
